@@ -383,6 +383,14 @@ def generate(r):
         # a few larger counts, oracle only (seeded)
         for _ in range(4):
             oracle_only_case(r, 513 + rng.below(4096 - 513))
+        # boundary family around the powers of two (tree levels fill up / a new level starts): oracle only.
+        # quick: all 2^k + d, |d| <= 3, k = 10..14, and one seeded k in 15..16; thorough: k up to 17
+        for k in range(10, 15):
+            for d in range(-3, 4):
+                oracle_only_case(r, (1 << k) + d)
+        k = 15 + rng.below(2)
+        for d in range(-3, 4):
+            oracle_only_case(r, (1 << k) + d)
         return
     full_upto = 1024
     pick = rng.below(16)
@@ -392,6 +400,9 @@ def generate(r):
         else:
             oracle_only_case(r, n)
     big = [4097, 8191, 8192, 8193, 65535, 65536, 65537, 99999, 100000]
+    for k in range(13, 18):
+        for d in range(-3, 4):
+            big.append((1 << k) + d)
     for _ in range(12):
         big.append(4097 + rng.below(100000 - 4097 + 1))
     full_case(r, 4097 + rng.below(4096))
